@@ -1799,6 +1799,9 @@ namespace awkward {
     size_t i = 0;
     for (;  i < others.size();  i++) {
       ContentPtr other = others[i];
+      while (VirtualArray* virt = dynamic_cast<VirtualArray*>(other.get())) {
+        other = virt->array();
+      }
       if (dynamic_cast<UnionArray8_32*>(other.get())  ||
           dynamic_cast<UnionArray8_U32*>(other.get())  ||
           dynamic_cast<UnionArray8_64*>(other.get())) {
@@ -1814,6 +1817,9 @@ namespace awkward {
 
     for (;  i < others.size();  i++) {
       ContentPtr other = others[i];
+      while (VirtualArray* virt = dynamic_cast<VirtualArray*>(other.get())) {
+        other = virt->array();
+      }
       tail.push_back(other);
     }
 
